@@ -194,12 +194,15 @@ def stacks(pid, tier, sc, mod, cdrv, rng):
         g = S.HistGen(rng, rng.sample(S.NAMES_PLAIN[:9] + ["refs/heads/zz"], rng.randint(2, 6)))
         g.cfg["skipnamecheck"] = False
         g.steps.append({"op": "open", "h": 1})
-        for t in range(rng.randint(1, 7)):
+        for t in range(rng.randint(1, 7) if i % 2 == 0 else rng.randint(4, 9)):
             p = g.part()
             if t == 0:
                 # an anchor ref that is never touched again: the stack never becomes empty, so update indices never restart
                 # (the C writer's automatic compactions are not observed step by step)
                 p["refs"] = [r for r in p["refs"] if r["n"] != "refs/anchor"] + [{"n": "refs/anchor", "v": ["v", "A", ""]}]
+                if i % 2:
+                    # a large table at the bottom: the automatic compactions of the small ones above it do not start at table 0
+                    p["refs"] += [{"n": "refs/bulk/%03d" % j, "v": ["v", "B", ""]} for j in range(40)]
             for l in p["logs"]:
                 if not l.get("del"):
                     l["msg"] = l["msg"].strip() if not g.cfg["exact"] else l["msg"]
